@@ -160,6 +160,7 @@ def normalising_decoders(prog, rep):
     value; that is only lawful if it also rejects the inputs it would have changed.  Every such decoder must, in its own
     tree, either raise a canonicality error (a `NonCanonical*`-style variant) or compare a re-encoding with its input."""
     n = 0
+    reenc_now = []
     for f in sorted(prog.fns.values(), key=lambda f: f.id):
         if f.is_closure() or not f.crate.startswith(("warp_core", "echo_")) or not DECODER_NAME.search(f.name):
             continue
@@ -199,10 +200,18 @@ def normalising_decoders(prog, rep):
                     return any(re.search(r"^c:(to_\w*bytes\w*|encode\w*|\w+_bytes_v\d)$", x) for x in t)
                 if (enc(ta) and "p:1" in tb) or (enc(tb) and "p:1" in ta):
                     reenc = True
+        if reenc:
+            reenc_now.append(f.id)
         rep.check(bool(gate) or reenc, "C12.R7", "normalising-decoder:%s" % f.id.replace("warp_core::", ""),
                   "normalises (%s) and rejects non-canonical input (%s)" % (norm[0][0], "re-encode compare" if reenc else (sorted(gate) or ["-"])[0]),
                   "%s sorts/deduplicates what it decoded (%s:%s) but never rejects: an input in another order is accepted and normalised, so it does not re-encode to itself and two byte "
                   "strings name one value" % (f.name, norm[0][0], norm[0][1]), site=f.loc())
+    # the strongest canonicality gate — decode, re-encode, compare with the input — stays where it was confirmed: replacing it by
+    # a narrower test (a length, a flag) re-opens every normalisation the narrower test does not see
+    frozen = baseline("C12.reencode-gates", sorted(reenc_now))
+    for fid in frozen:
+        rep.check(fid in reenc_now, "C12.R7", "reencode-gate-kept:%s" % fid.replace("warp_core::", ""), "accepted bytes are compared with their re-encoding",
+                  "%s no longer compares the re-encoding of what it decoded with its input: inputs that its constructor normalises (e.g. a different order of a sorted set) are accepted" % fid, site=fid)
     rep.check(n >= 5, "C12.R7", "normalising-decoders:count", "%d normalising decoders examined" % n, "only %d normalising decoders found" % n, site="workspace")
 
 
@@ -445,13 +454,11 @@ def run(ctx):
     rep.check(n_fin >= 15, "C12.R4", "finish-before-ok:count", "%d cursor-based readers examined" % n_fin, "only %d cursor-based readers found" % n_fin, site="workspace")
     # re-encode-and-compare gates
     for path, enc_pat in (("warp_core::provenance_codec::decode_local_commit_v1", r"encode_local_commit_v1$"),
-                          ("warp_core::head_inbox::IngressEnvelope::from_retained_bytes_v2", r"to_retained_bytes$|encode_retained\w*$")):
+                          ("warp_core::head_inbox::IngressEnvelope::from_retained_bytes_v2", r"to_retained_bytes(_v\d)?$|encode_retained\w*$")):
         f = prog.fn_opt(path)
         if f is None:
             continue
         enc = f.call_sites(enc_pat)
-        if not enc:
-            continue
         okr = False
         for c in comparisons(f):
             na, nb = near_origins(f, c[2]), near_origins(f, c[3])
